@@ -231,6 +231,13 @@ var scriptWitnesses = []scriptWitness{
 	{"w-pg-alter-column-type-later-call", pg, []Stmt{tbl("t", col("a", "INT8"), col("b", "VARCHAR(64)")), idx("t", "ib", false, "b"), {Kind: "addColumn", T: "t", Col: col("c", "INT4"), Pos: "none"},
 		{Kind: "alterType", T: "t", A: "c", B: "INT8"}, {Kind: "alterType", T: "t", A: "a", B: "INT4"}}},
 	{"w-pg-drop-not-null", pg, []Stmt{tbl("t", col("a", "INT8"), col("b", "VARCHAR(64)")), {Kind: "dropNotNull", T: "t", A: "b"}}},
+	// found by a sub-agent of round 10 on the unchanged tree (FX-pg-comment-null, FX-renamed-column-dropped)
+	{"w-pg-comment-is-null", pg, []Stmt{tbl("t", col("a", "INT8"), col("b", "INT8")), {Kind: "commentOn", T: "t", A: "a", B: "first"}, {Kind: "commentOn", T: "t", A: "a", B: ""},
+		{Kind: "commentOn", T: "t", A: "b", B: ""}}},
+	{"w-renamed-column-dropped-readded", my, []Stmt{tbl("t", ints("a", "b")...), {Kind: "renameColumn", T: "t", A: "a", B: "c"}, {Kind: "dropColumn", T: "t", A: "c"},
+		{Kind: "addColumn", T: "t", Col: col("c", "int(11)"), Pos: "after", After: "b"}}},
+	{"w-renamed-column-dropped-readded-first", my, []Stmt{tbl("t", ints("a", "b", "d")...), idx("t", "i", false, "b"), {Kind: "renameColumn", T: "t", A: "b", B: "c"}, {Kind: "dropColumn", T: "t", A: "c"},
+		{Kind: "addColumn", T: "t", Col: col("b", "int(11)"), Pos: "first"}, {Kind: "addColumn", T: "t", Col: col("c", "int(11)"), Pos: "after", After: "d"}}},
 	// C05-h: a renamed column (its record has the action `rename`), then DROP NOT NULL on it
 	{"w-pg-rename-then-drop-not-null", pg, []Stmt{tbl("t", col("a", "INT8"), col("heading", "VARCHAR(64)")), {Kind: "renameColumn", T: "t", A: "heading", B: "title"},
 		{Kind: "dropNotNull", T: "t", A: "title"}, {Kind: "alterType", T: "t", A: "a", B: "INT4"}}},
